@@ -6,6 +6,8 @@ from pyvc import terms as T
 from pyvc import spec as S
 from pyvc.terms import Q
 
+import contracts_common_signal as CS
+
 G = Q('9.81')
 
 
@@ -16,13 +18,22 @@ def setup_asig(V, st, min_n=1):
         dt = V.real('dt')
         V.assume(dt > 0)
         asig = S.make_signal(V, 'AccSignal', a, dt)
-        st.update(a=a, n=n, dt=dt)
+        st.update(a=a, n=n, dt=dt, asig=asig)
         return dict(arg0=asig) if False else ((asig,), {})
     return setup
 
 
-def series_clauses(V, out, c, n, first, inc, name=''):
+def signal_untouched(V, out, st):
+    """frame: a measure is a pure reader of the signal -- afterwards the object still reports the record, velocity and
+    displacement of a freshly constructed object (a measure that edits a cached series in place corrupts the NEXT measure)"""
+    if 'asig' in st:
+        CS.check_fresh_equivalence(V, out, st['asig'], ['values', 'velocity', 'displacement'], tag='frame/')
+
+
+def series_clauses(V, out, c, n, first, inc, name='', st=None):
     """c has length n, c[0] == first, c[i]-c[i-1] == inc(i) >= 0 (hence non-decreasing)."""
+    if st is not None:
+        signal_untouched(V, out, st)
     out.prove(name + 'length-is-npts', T.sand(len(c.shape) == 1, T.seq(c.shape[0], n)))
     out.prove(name + 'first-value', T.seq(c[0], first))
     for i in V.idx(1, n):
@@ -66,7 +77,7 @@ def cav(V):
             continue
         out.side_conditions()
         a, n, dt = st['a'], st['n'], st['dt']
-        series_clauses(V, out, out.result, n, 0, trap(dt, lambda j: T.sabs(a[j])))
+        series_clauses(V, out, out.result, n, 0, trap(dt, lambda j: T.sabs(a[j])), st=st)
 
 
 @unit('C09', 'calc_isv', functions=['eqsig.im.calc_isv'], sizes=dict(n=[2, 4]))
@@ -78,7 +89,7 @@ def isv(V):
         out.side_conditions()
         a, n, dt = st['a'], st['n'], st['dt']
         v = V.np.sp_cumtrapz(a, dx=dt, initial=0)          # C08: velocity is the cumulative trapezoid of the record
-        series_clauses(V, out, out.result, n, 0, trap(dt, lambda j: T.smul(v[j], v[j])))
+        series_clauses(V, out, out.result, n, 0, trap(dt, lambda j: T.smul(v[j], v[j])), st=st)
 
 
 @unit('C09', 'calc_integral_of_abs_acceleration', functions=['eqsig.im.calc_integral_of_abs_acceleration'], sizes=dict(n=[1, 2, 4]))
@@ -89,7 +100,7 @@ def int_abs_acc(V):
             continue
         out.side_conditions()
         a, n, dt = st['a'], st['n'], st['dt']
-        series_clauses(V, out, out.result, n, T.smul(T.sabs(a[0]), dt), lambda i: T.smul(T.sabs(a[i]), dt))
+        series_clauses(V, out, out.result, n, T.smul(T.sabs(a[0]), dt), lambda i: T.smul(T.sabs(a[i]), dt), st=st)
 
 
 @unit('C09', 'calc_integral_of_abs_velocity', functions=['eqsig.im.calc_integral_of_abs_velocity', 'eqsig.im.calc_cumulative_abs_displacement'],
@@ -102,7 +113,7 @@ def int_abs_vel(V, fn):
         out.side_conditions()
         a, n, dt = st['a'], st['n'], st['dt']
         v = V.np.sp_cumtrapz(a, dx=dt, initial=0)
-        series_clauses(V, out, out.result, n, 0, lambda i: T.smul(T.sabs(v[i]), dt))
+        series_clauses(V, out, out.result, n, 0, lambda i: T.smul(T.sabs(v[i]), dt), st=st)
 
 
 @unit('C09', 'calc_unit_kinetic_energy', functions=['eqsig.im.calc_unit_kinetic_energy'], sizes=dict(n=[2, 4]))
@@ -115,7 +126,7 @@ def uke(V):
         a, n, dt = st['a'], st['n'], st['dt']
         v = V.np.sp_cumtrapz(a, dx=dt, initial=0)
         ke = lambda j: T.smul(T.smul(Q('1/2'), v[j]), T.sabs(v[j]))      # 0.5 * v * |v|
-        series_clauses(V, out, out.result, n, T.sabs(ke(0)), lambda i: T.sabs(T.ssub(ke(i), ke(i - 1))))
+        series_clauses(V, out, out.result, n, T.sabs(ke(0)), lambda i: T.sabs(T.ssub(ke(i), ke(i - 1))), st=st)
 
 
 # ---------------------------------------------------------------------------------------------- standardised CAV
